@@ -29,106 +29,6 @@ func nearestX(c *ecref.Curve, x0 *big.Int, dir int64, ybit uint) (ecref.Point, b
 	return ecref.Point{}, false
 }
 
-// --- points with a prescribed small y: roots of x^3 + a x + (b - y^2) over GF(p) -------------------------
-// Polynomials of degree < 3 modulo the monic cubic f = x^3 + a x + c0 are [3]*big.Int (little-endian).
-
-type poly3 [3]*big.Int
-
-func (c *cubic) mulmod(u, v poly3) poly3 {
-	var t [5]*big.Int
-	for i := range t {
-		t[i] = new(big.Int)
-	}
-	for i := 0; i < 3; i++ {
-		for j := 0; j < 3; j++ {
-			t[i+j].Add(t[i+j], new(big.Int).Mul(u[i], v[j]))
-		}
-	}
-	// x^3 = -a x - c0 ; x^4 = -a x^2 - c0 x
-	for d := 4; d >= 3; d-- {
-		k := t[d]
-		t[d-2].Sub(t[d-2], new(big.Int).Mul(k, c.a))
-		t[d-3].Sub(t[d-3], new(big.Int).Mul(k, c.c0))
-	}
-	var r poly3
-	for i := 0; i < 3; i++ {
-		r[i] = t[i].Mod(t[i], c.p)
-	}
-	return r
-}
-
-type cubic struct{ p, a, c0 *big.Int }
-
-// singleRoot returns the root of f in GF(p) if f has exactly one (gcd(x^p - x, f) of degree 1).
-func (c *cubic) singleRoot() (*big.Int, bool) {
-	// g = x^p mod f
-	x := poly3{big.NewInt(0), big.NewInt(1), big.NewInt(0)}
-	g := poly3{big.NewInt(1), big.NewInt(0), big.NewInt(0)}
-	for i := c.p.BitLen() - 1; i >= 0; i-- {
-		g = c.mulmod(g, g)
-		if c.p.Bit(i) == 1 {
-			g = c.mulmod(g, x)
-		}
-	}
-	// h = g - x (degree <= 2); gcd(f, h) by the Euclidean algorithm over GF(p)
-	h := []*big.Int{new(big.Int).Set(g[0]), new(big.Int).Sub(g[1], big.NewInt(1)), new(big.Int).Set(g[2])}
-	h[1].Mod(h[1], c.p)
-	f := []*big.Int{new(big.Int).Mod(c.c0, c.p), new(big.Int).Mod(c.a, c.p), big.NewInt(0), big.NewInt(1)}
-	trim := func(q []*big.Int) []*big.Int {
-		for len(q) > 0 && q[len(q)-1].Sign() == 0 {
-			q = q[:len(q)-1]
-		}
-		return q
-	}
-	A, B := trim(f), trim(h)
-	for len(B) > 0 {
-		// A = A mod B
-		inv := new(big.Int).ModInverse(B[len(B)-1], c.p)
-		for len(A) >= len(B) {
-			k := new(big.Int).Mul(A[len(A)-1], inv)
-			k.Mod(k, c.p)
-			off := len(A) - len(B)
-			for i := range B {
-				A[off+i].Sub(A[off+i], new(big.Int).Mul(k, B[i]))
-				A[off+i].Mod(A[off+i], c.p)
-			}
-			A = trim(A)
-			if len(A) == 0 {
-				break
-			}
-		}
-		A, B = B, A
-	}
-	if len(A) != 2 { // gcd not linear
-		return nil, false
-	}
-	// root of A[1] x + A[0]
-	r := new(big.Int).ModInverse(A[1], c.p)
-	r.Mul(r, A[0])
-	r.Neg(r)
-	return r.Mod(r, c.p), true
-}
-
-// smallYPoints returns up to n on-curve points (x, y) with the smallest y >= 1 for which the cubic in x has
-// exactly one root. Every returned point is verified with ecref.OnCurve.
-func smallYPoints(c *ecref.Curve, n int) []ecref.Point {
-	var out []ecref.Point
-	for y := int64(1); y < 200 && len(out) < n; y++ {
-		c0 := new(big.Int).Sub(c.B, big.NewInt(y*y))
-		cu := &cubic{p: c.P, a: c.A, c0: c0.Mod(c0, c.P)}
-		x, ok := cu.singleRoot()
-		if !ok {
-			continue
-		}
-		p := ecref.Point{X: x, Y: big.NewInt(y)}
-		if !c.OnCurve(p) {
-			panic("c05: cubic solver returned an off-curve point")
-		}
-		out = append(out, p)
-	}
-	return out
-}
-
 // pointAlphabet builds the DESIGN §4 C05 point set.
 func pointAlphabet(quick bool) []npoint {
 	c := ecref.SM2()
@@ -175,7 +75,7 @@ func pointAlphabet(quick bool) []npoint {
 			}
 		}
 	}
-	for i, p := range smallYPoints(c, 3) {
+	for i, p := range ecref.SmallYPoints(c, 3) {
 		add(fmt.Sprintf("smally#%d", i), p)
 		add(fmt.Sprintf("largey#%d", i), c.Neg(p))
 	}
